@@ -1842,3 +1842,150 @@ def phasefield_rule(ctx, rid="R17.E1"):
     if ctx.tier == "thorough":
         scen += [scenario("QUAD4", "Bourdin", "AT2", "HistoryDamage", Q(1, 1000)), scenario("TRI6", "Amor", "AT2", "History", 1), scenario("TRI3", "Amor", "AT2", "History", Q(1, 1000))]
     run_scenarios(ctx, r, scen)
+
+
+# ---------------------------------------------------------------------------------------------------------------------
+# C18: finite-strain analyses end to end (Newton iterations interpreted), Saint-Venant-Kirchhoff (a polynomial energy)
+SVK = "EasyFEA.Models.HyperElastic._laws.SaintVenantKirchhoff"
+HE_SIMU = "EasyFEA.Simulations._hyperelastic.HyperElastic"
+
+
+def _svk_energy(md, W, u, lmbda, mu, thickness):
+    """reference (written here): total stored energy of a simplex mesh (constant deformation gradient per element) for the
+    Saint-Venant-Kirchhoff law W = lambda/2 tr(E)^2 + mu E:E, E = (F^T F - 1)/2, F = 1 + grad u; `u` is a flat list (numbers
+    or polynomials), node-major.  Cramer's rule for the gradient."""
+    dim = md.dim
+    main = [k for k, rows in md.groups.items() if W.lib.gmsh[k]["dim"] == dim]
+    tot = Poly.const(0)
+    for k in main:
+        for row in md.groups[k]:
+            vs = row[:dim + 1]
+            X = [md.coords[n][:dim] for n in vs]
+            # edge matrix D[a][i] = X_a - X_0 ; grad u = D^-1 * dU
+            D = [[X[a + 1][i] - X[0][i] for i in range(dim)] for a in range(dim)]
+            if dim == 2:
+                det = D[0][0] * D[1][1] - D[0][1] * D[1][0]
+                inv = [[D[1][1] / det, -D[0][1] / det], [-D[1][0] / det, D[0][0] / det]]
+                meas = abs(det) / 2
+            else:
+                c = lambda i, j: D[(i + 1) % 3][(j + 1) % 3] * D[(i + 2) % 3][(j + 2) % 3] - D[(i + 1) % 3][(j + 2) % 3] * D[(i + 2) % 3][(j + 1) % 3]
+                det = sum(D[0][j] * c(0, j) for j in range(3))
+                inv = [[c(j, i) / det for j in range(3)] for i in range(3)]
+                meas = abs(det) / 6
+            dU = [[Poly.of(u[vs[a + 1] * dim + i]) - Poly.of(u[vs[0] * dim + i]) for i in range(dim)] for a in range(dim)]
+            # grad[i][j] = d u_i / d X_j = sum_a inv[j][a] * dU[a][i]
+            F = [[sum((inv[j][a] * dU[a][i] for a in range(dim)), Poly.const(0)) + (1 if i == j else 0) for j in range(dim)] for i in range(dim)]
+            E = [[(sum((F[k_][i] * F[k_][j] for k_ in range(dim)), Poly.const(0)) - (1 if i == j else 0)) / 2 for j in range(dim)] for i in range(dim)]
+            tr = sum((E[i][i] for i in range(dim)), Poly.const(0))
+            EE = sum((E[i][j] * E[i][j] for i in range(dim) for j in range(dim)), Poly.const(0))
+            tot = tot + (tr * tr * lmbda / 2 + EE * mu) * meas * thickness
+    return tot
+
+
+def hyperelastic_rule(ctx, rid="R18.E2"):
+    """Finite-strain analyses interpreted end to end with the polynomial Saint-Venant-Kirchhoff energy: material, simulation,
+    boundary conditions, the Newton iterations of `Solve` (linear backend: exact elimination rounded to 30 digits), time stepping.
+
+    static: at the converged displacement the stored energy written HERE (constant deformation gradient per simplex, Cramer's
+    rule) is stationary with respect to every free dof - the residual the library drives to zero is the gradient of the stored
+    energy, the tangent it iterates with lets Newton converge within the iteration budget - and `_Calc_W` reports that energy;
+    dynamic: free motion from a non-rigid initial velocity under the midpoint scheme with the energy-conserving stresses
+    (`gonzalez`; `quadrature` with 3 points, exact for this quartic energy): kinetic + stored energy (reference energy, the
+    library's own M) is the same after every step, for two step sizes."""
+    repo = ctx.repo
+    r = ctx.rule(rid, "finite-strain analyses end to end (Saint-Venant-Kirchhoff): the converged static displacement makes the reference stored energy stationary on every free dof and _Calc_W reports it; free motion under midpoint with the gonzalez / 3-point quadrature stresses conserves kinetic + stored energy step after step", min_instances=3)
+    anchor = repo.lookup_method(repo.cls(HE_SIMU), "Construct_local_matrix_system")
+    W0 = World(repo)
+    ALGO = "EasyFEA.Simulations.Solvers.AlgoType"
+    LM, MU, TH = Q(3), Q(2), Q(1, 2)
+
+    def num(p):
+        p = Poly.of(p)
+        if not p.is_const():
+            raise Undecided("a symbolic value where a number was expected")
+        v = p.const_value()
+        return Q(v.approx()) if hasattr(v, "approx") else Q(v)
+
+    def build(elem):
+        W = World(repo, lib=W0.lib, extra={"MPI_RANK": 0}, round_digits=30)
+        md, mesh = domain_mesh(W, elem)
+        dim = md.dim
+        mat = W.new(SVK, dim, LM, MU, thickness=TH) if dim == 2 else W.new(SVK, dim, LM, MU)
+        simu = W.new(HE_SIMU, mesh, mat)
+        return W, md, mesh, mat, simu, dim, (TH if dim == 2 else Q(1))
+
+    def static(elem):
+        def thunk():
+            W, md, mesh, mat, simu, dim, th = build(elem)
+            left = boundary_nodes(W, md, lambda c: c[0] == 0)
+            right = boundary_nodes(W, md, lambda c: c[0] == 2)
+            W.call(simu, "add_dirichlet", iarr(left), [Q(0)] * dim, ["x", "y", "z"][:dim])
+            W.call(simu, "add_dirichlet", iarr(right), [Q(1, 5), Q(-1, 10)], ["x", "y"])
+            W.call(simu, "Solve")
+            u = [num(p) for p in polys(W.get(simu, "displacement"))]
+            fixed = {n * dim + i for n in left for i in range(dim)} | {n * dim + i for n in right for i in range(2)}
+            eps = Poly.var("eps")
+            worst = Q(0)
+            for dof in range(len(u)):
+                if dof in fixed:
+                    continue
+                ue = [Poly.const(x) for x in u]
+                ue[dof] = ue[dof] + eps
+                We = _svk_energy(md, W, ue, LM, MU, th)
+                d1 = sum((c for m, c in We.t.items() if sum(dict(m).values()) == 1), Q(0)) if hasattr(We, "t") else Q(0)
+                worst = max(worst, abs(Q(d1)))
+                if abs(Q(d1)) > Q(1, 10**5):
+                    return f"static {elem}: at the converged displacement the derivative of the stored energy with respect to the free dof {dof} (node {dof // dim}, direction {'xyz'[dof % dim]}) is {float(d1):.3g} (energies of order 0.1): the residual driven to zero is not the gradient of the stored energy"
+            Wlib = num(polys(W.call(simu, "_Calc_W"))[0])
+            Wref = num(_svk_energy(md, W, u, LM, MU, th))
+            if abs(Wlib - Wref) > Q(1, 10**15):
+                return f"static {elem}: _Calc_W reports {float(Wlib):.8g}, the stored energy of the displacement is {float(Wref):.8g}"
+            return None
+
+        return (f"finite strain static {elem}", anchor, thunk)
+
+    def dynamic(elem, stress, dt):
+        def thunk():
+            W, md, mesh, mat, simu, dim, th = build(elem)
+            W.set(simu, "rho", Q(7, 3))
+            W.call(simu, "Solver_Set_Hyperbolic_Algorithm", dt, W.enum(ALGO, "midpoint"))
+            if stress == "quadrature":
+                W.call(simu, "Solver_Set_Stress", stress, 3)
+            else:
+                W.call(simu, "Solver_Set_Stress", stress)
+            n = md.Nn * dim
+            u0 = XArray((n,), [Q(0)] * n)
+            # a stretching / shearing initial velocity (not a rigid motion)
+            v0 = XArray((n,), [(md.coords[k // dim][0] * Q(1, 2) if k % dim == 0 else md.coords[k // dim][0] * md.coords[k // dim][1] * Q(1, 3)) for k in range(n)])
+            a0 = XArray((n,), [Q(0)] * n)
+            pt = W.get(simu, "problemType")
+            W.call(simu, "_Set_solutions", pt, u0, v0, a0)
+            M = None
+            energies = []
+
+            def energy():
+                nonlocal M
+                u = [num(p) for p in polys(W.call(simu, "_Get_u_n", pt))]
+                v = [num(p) for p in polys(W.call(simu, "_Get_v_n", pt))]
+                if M is None:
+                    M = dense(W.call(simu, "Get_K_C_M_F")[2], n)
+                ke = sum(v[i] * num(M[i][j]) * v[j] for i in range(n) for j in range(n) if M[i][j] != 0) / 2
+                return ke + num(_svk_energy(md, W, u, LM, MU, th)), ke
+
+            for k in range(4):
+                W.call(simu, "Solve")
+                energies.append(energy())
+            e0 = sum(v0.data[i] * num(M[i][j]) * v0.data[j] for i in range(n) for j in range(n) if M[i][j] != 0) / 2
+            for k, (e, ke) in enumerate(energies):
+                if abs(e - e0) > Q(1, 10**7) * e0:
+                    return f"free motion {elem}, midpoint, {stress} stress, dt = {dt}: kinetic + stored energy is {float(e):.10g} after step {k + 1}, it was {float(e0):.10g} at the start (relative drift {float(abs(e - e0) / e0):.2e})"
+            if abs(energies[-1][1] - e0) < Q(1, 1000) * e0:
+                raise Undecided("the motion exchanged no energy between kinetic and stored")
+            return None
+
+        return (f"finite strain free motion {elem} {stress} dt={dt}", anchor, thunk)
+
+    scen = [static("TRI3"), static("TETRA4"), dynamic("TRI3", "gonzalez", Q(1, 4)), dynamic("TRI3", "quadrature", Q(1, 4))]
+    if ctx.tier == "thorough":
+        scen += [dynamic("TRI3", "gonzalez", Q(1, 10)), dynamic("TRI3", "quadrature", Q(1, 10)), dynamic("TETRA4", "gonzalez", Q(1, 4))]
+    run_scenarios(ctx, r, scen)
